@@ -246,8 +246,8 @@ def run_module(b, workdir, tag, files, backend="-python-native", timeout=10, pre
             f.write("// stale output of an earlier run\n")
     elif os.path.exists(out):
         os.remove(out)
-    r = tools.interrogate_module(b, ["-oc", out, "-module", "m", "-library", "m", backend] + list(files),
-                                 cwd=workdir, timeout=timeout)
+    r = tools.run_stable([b["interrogate_module"], "-oc", out, "-module", "m", "-library", "m", backend]
+                         + list(files), b, cwd=workdir, timeout=timeout)
     exists = os.path.exists(out)
     text = None
     if exists:
